@@ -26,11 +26,63 @@ Theorem C18_unsafe_sets_are_delimiters :
 Proof. exact unsafe_sets_are_delimiters. Qed.
 Print Assumptions C18_unsafe_sets_are_delimiters.
 
-(** PARTIAL: the URL-level statement URL(u.human_repr()) == u composes human_quote, IDNA
-    decoding, make_netloc/unsplit, the parser and the requoters; it is stated as the
-    executable predicate c18_pred (Preds/P18.v: equality of the five compared parts, and
-    readability of every escape shown) and checked on the implementation and the model, not
-    proved.  Known finding F13 (non-ASCII user/password vs the NFKC screen). *)
+(** Round trip, component level - proved for every text.  [human_quote t unsafe] is a
+    per-character rendering ([hchar]: the escape of a delimiter of the position or of '%',
+    the character itself when printable, the escapes of its UTF-8 bytes otherwise) ... *)
+From Yarl Require Import Model.Quoters Spec.QuoteSpec Proofs.HumanRoundtrip Proofs.UnquoteProofs.
+Theorem C18_shown_text : forall (unsafe t : str),
+  unsafe_ok unsafe -> Forall (fun c => py_isprintable c = true) unsafe -> no_sur t ->
+  human_quote t unsafe = Ok (flat_map (hchar unsafe) t).
+Proof. intros unsafe t Hu Hp Hs. exact (human_quote_flat unsafe t Hu escapes_printable Hp Hs). Qed.
+Print Assumptions C18_shown_text.
+
+(** ... and re-parsing it gives the canonical encoding of t: in each of the four positions
+    (user/password, path, fragment, query key/value; the finite side conditions on the
+    regenerated quoter tables and on str.isprintable are discharged by complete sweeps of
+    the 128 ASCII characters, [positions_ok]), for either backend and EVERY surrogate-free
+    text t, the requoter the parser applies to what human_repr() shows returns exactly what
+    the plain quoter of that component stores for t - so URL(u.human_repr()) stores the same
+    raw user, password, path and fragment as u = build(decoded components). *)
+Theorem C18_component_roundtrip : forall (b : backend) kR kP unsafe (t r : str),
+  In (kR, kP, unsafe) human_positions -> valid_str t -> no_sur t ->
+  human_quote t unsafe = Ok r ->
+  quote_impl b (eff_of kR) r = quote_impl b (eff_of kP) t.
+Proof. exact human_component_roundtrip. Qed.
+Print Assumptions C18_component_roundtrip.
+
+(** starting from the stored component: decode (the accessor human_repr() reads), show,
+    re-parse - the stored component is a fixed point *)
+Theorem C18_stored_component_fixed : forall (b : backend) kR kP ku unsafe (t r : str),
+  In (kR, kP, unsafe) human_positions -> In (kP, ku) roundtrip_pairs -> valid_str t -> no_sur t ->
+  human_quote (unquote_impl b ku (quote_impl b (eff_of kP) t)) unsafe = Ok r ->
+  quote_impl b (eff_of kR) r = quote_impl b (eff_of kP) t.
+Proof.
+  intros b kR kP ku unsafe t r Hpos Hrt Hv Hs H.
+  rewrite (unquote_quote_roundtrip b kP ku t Hrt Hv Hs) in H. eapply human_component_roundtrip; eauto.
+Qed.
+Print Assumptions C18_stored_component_fixed.
+
+(** the whole query: every key and value through human_quote, joined by '=' and '&',
+    re-parses (QUERY_REQUOTER) to the canonical serialisation of the pairs, which parse_qsl
+    reads back as the pairs (C12_parse_inverts_serialise) *)
+From Yarl Require Import Proofs.QueryRoundtrip.
+Theorem C18_query_roundtrip : forall items : list (str * str), pairs_ok items ->
+  qspec QRQ' (join [38%N] (map human_pair items)) = join [38%N] (map chunk_of items).
+Proof. exact human_query_roundtrip. Qed.
+Print Assumptions C18_query_roundtrip.
+
+(** PARTIAL: the URL-level statement URL(u.human_repr()) == u additionally composes IDNA
+    decoding of the host, make_netloc/unsplit and the parser's split (that the delimiters
+    shown are exactly those of the original: C18_no_raw_delimiter above); it is the
+    executable predicate c18_pred (Preds/P18.v) checked on the implementation and the
+    model.  Known finding F13 (non-ASCII user/password vs the NFKC screen). *)
+
+Example C18_roundtrip_example :      (* user "a/é% <ZWSP>": shown a%2Fé%25 %E2%80%8B, re-parsed = QUOTER of the text *)
+  exists r, human_quote [97; 47; 233; 37; 32; 8203] unsafe_userinfo = Ok r
+    /\ quote_impl BC (eff_of REQUOTER) r = quote_impl BC (eff_of QUOTER) [97; 47; 233; 37; 32; 8203]
+    /\ quote_impl BC (eff_of REQUOTER) r = [97; 37;50;70; 37;67;51;37;65;57; 37;50;53; 37;50;48; 37;69;50;37;56;48;37;56;66].
+Proof. eexists. split; [vm_compute; reflexivity|]. split; vm_compute; reflexivity. Qed.
+Print Assumptions C18_roundtrip_example.
 
 Example C18_example :
   human_quote [97; 47; 233; 37; 32; 8203] unsafe_userinfo        (* a/é% <ZWSP> as a user name *)
